@@ -175,15 +175,19 @@ Section PStep.
               match p_sort f p1 b with
               | Flt => Flt
               | Ok p2 =>
-                match p_merge (N.to_nat (lcount o)) p2 l a b with
-                | Flt => Flt
-                | Ok p3 =>
-                  match nth_error (objs p3) l, nth_error (objs p3) a, nth_error (objs p3) b with
-                  | Some ol, Some oa, Some ob =>
-                    let p4 := if 0 <? lcount oa then p_concat p3 l a ol oa else p_concat p3 l b ol ob in
-                    Ok (mkP (nx p4) (firstn a (objs p4)))
-                  | _, _, _ => Flt
+                match nth_error (objs p2) a, nth_error (objs p2) b with
+                | Some oa2, Some ob2 =>
+                  match p_merge (N.to_nat (lcount oa2 + lcount ob2)) p2 l a b with
+                  | Flt => Flt
+                  | Ok p3 =>
+                    match nth_error (objs p3) l, nth_error (objs p3) a, nth_error (objs p3) b with
+                    | Some ol, Some oa, Some ob =>
+                      let p4 := if 0 <? lcount oa then p_concat p3 l a ol oa else p_concat p3 l b ol ob in
+                      Ok (mkP (nx p4) (firstn a (objs p4)))
+                    | _, _, _ => Flt
+                    end
                   end
+                | _, _ => Flt
                 end
               end
             end
@@ -243,7 +247,7 @@ Section PStep.
         else Done p [])
     | Sort l =>
       with_obj p l (fun ob =>
-        match p_sort (S (N.to_nat (lcount ob))) p l with
+        match p_sort (N.to_nat (lcount ob)) p l with
         | Ok p' => Done p' []
         | Flt => Fault
         end)
